@@ -344,3 +344,19 @@ def run(chk):
             else:
                 chk.bad("R4", "subst:" + i.key, i.file, i.line, i.what, i.expected, i.found)
     chk.guard("R4", r4)
+
+    def typepath_contract():
+        from ..core import Check
+        from . import c04
+        sub = Check("C04", chk.repo, chk.tier)
+        sub.guard("R8", lambda: c04.r8_typepath_ctor(sub))
+        chk.rule("R5", "a path interpolated as <path> <generics> is a valid type only if the path itself no longer carries its <..> (C04.R8)", floor=2)
+        for r_, w_ in sub.inconclusive:
+            chk.inconc("R5", w_)
+        for i in sub.instances:
+            if i.rule == "R8":
+                if i.ok:
+                    chk.ok("R5", "typepath:" + i.key, i.file, i.line)
+                else:
+                    chk.bad("R5", "typepath:" + i.key, i.file, i.line, i.what, i.expected, i.found)
+    chk.guard("R5", typepath_contract)
